@@ -3,6 +3,7 @@ mod framework;
 mod wl;
 mod history;
 mod props;
+mod refmodel;
 mod rng;
 mod scenario;
 mod tokens;
